@@ -85,3 +85,39 @@ func MW[M ~map[K]V, K comparable, V any](m M, site int) M { mapAccess(m, true, s
 // Mid sits between the read and the write of a split x.f++ / x.f--: a thread that holds no lock
 // may be preempted here.
 func Mid() { vsync.BarePoint() }
+
+func elems[T any](s []T, from, to int, write bool, site int) {
+	if !vsync.Tracking() || to <= from || cap(s) == 0 {
+		return
+	}
+	full := s[:cap(s)]
+	sz := unsafe.Sizeof(full[0])
+	if sz == 0 {
+		return
+	}
+	offs := make([]uintptr, 0, to-from)
+	for i := from; i < to && i < cap(s); i++ {
+		offs = append(offs, uintptr(i)*sz)
+	}
+	vsync.Access(unsafe.Pointer(&full[0]), offs, write, site)
+}
+
+// RS reports a read of every element of s (a range loop, the source of a copy) and returns s.
+func RS[S ~[]T, T any](s S, site int) S { elems([]T(s), 0, len(s), false, site); return s }
+
+// CW reports a write of every element of s (the destination of a copy) and returns s.
+func CW[S ~[]T, T any](s S, site int) S { elems([]T(s), 0, len(s), true, site); return s }
+
+// AP sits on the first argument of append: appending n values (n < 0: unknown, the whole spare
+// capacity) writes the elements behind len when the capacity allows.
+func AP[S ~[]T, T any](s S, n int, site int) S {
+	to := len(s) + n
+	if n < 0 || to > cap(s) {
+		to = cap(s)
+	}
+	if n >= 0 && len(s)+n > cap(s) {
+		return s // reallocation: nothing behind len is touched
+	}
+	elems([]T(s), len(s), to, true, site)
+	return s
+}
